@@ -190,17 +190,21 @@ func runProgram(p *expr, method string, seq []int, rep *lib.Report) {
 	})
 	var b *buffer.Buffer
 	var err error
+	var opts []buffer.Option
+	if verboseRun {
+		opts = append(opts, buffer.Verbose(true), buffer.Logger(lib.FormatLogger{}))
+	}
 	if p == nil {
-		b, err = buffer.New(h)
+		b, err = buffer.New(h, opts...)
 	} else {
-		b, err = buffer.New(h, buffer.Retry(p.String()))
+		b, err = buffer.New(h, append(opts, buffer.Retry(p.String()))...)
 	}
 	name := "<no retry option>"
 	if p != nil {
 		name = p.String()
 	}
 	what := func() map[string]any {
-		return map[string]any{"engine": "enum", "part": "c07", "mode": "program", "program": name, "method": method, "statuses": seq}
+		return map[string]any{"engine": "enum", "part": "c07", "mode": "program", "program": name, "method": method, "statuses": seq, "verbose": verboseRun}
 	}
 	if err != nil {
 		rep.Violate("C07:expression-rejected", fmt.Sprintf("buffer.Retry(%q) rejected: %v", name, err), what())
@@ -259,6 +263,9 @@ func runProgram(p *expr, method string, seq []int, rep *lib.Report) {
 	}
 }
 
+// verboseRun: the non-default Verbose option with a logger that formats its arguments.
+var verboseRun bool
+
 // ---- response shapes through a real server and a raw TCP client
 
 type shape struct {
@@ -315,7 +322,7 @@ func runShape(s shape, addr string, setShape func(shape), rep *lib.Report) {
 	setShape(s)
 	raw := []byte("GET /shape HTTP/1.1\r\nHost: x\r\nConnection: close\r\n\r\n")
 	what := func() map[string]any {
-		return map[string]any{"engine": "enum", "part": "c07", "mode": "shape", "shape": s.String()}
+		return map[string]any{"engine": "enum", "part": "c07", "mode": "shape", "shape": s.String(), "verbose": verboseRun}
 	}
 	var resp []byte
 	var hung bool
@@ -440,7 +447,11 @@ func shapeServer() (*lib.Server, func(shape)) {
 			w.Write(p)
 		}
 	})
-	b, err := buffer.New(h, buffer.Retry("IsNetworkError() && Attempts() < 2"), buffer.MemResponseBodyBytes(32))
+	opts := []buffer.Option{buffer.Retry("IsNetworkError() && Attempts() < 2"), buffer.MemResponseBodyBytes(32)}
+	if verboseRun {
+		opts = append(opts, buffer.Verbose(true), buffer.Logger(lib.FormatLogger{}))
+	}
+	b, err := buffer.New(h, opts...)
 	if err != nil {
 		panic(err)
 	}
@@ -476,18 +487,34 @@ func RunC07(tier string, sh lib.Shard, rep *lib.Report) {
 			rep.Sample(3, p.String())
 		}
 	}
-	srv, set := shapeServer()
-	defer srv.Close()
-	for i, s := range shs {
-		if sh.Mine(i) {
-			runShape(s, srv.Addr, set, rep)
+	for _, verbose := range []bool{false, true} {
+		verboseRun = verbose
+		srv, set := shapeServer()
+		for i, s := range shs {
+			if sh.Mine(i) {
+				runShape(s, srv.Addr, set, rep)
+			}
+		}
+		srv.Close()
+		if verbose {
+			// a slice of the programs again with the verbose option
+			for i, p := range all {
+				if sh.Mine(i) && i%7 == 0 {
+					for _, seq := range seqs[:12] {
+						runProgram(p, "POST", seq, rep)
+					}
+					rep.Count("programs_rerun_verbose")
+				}
+			}
 		}
 	}
+	verboseRun = false
 	rep.Nontrivial = rep.Counters["programs_that_retried"] + rep.Counters["shapes_after_a_discarded_attempt"]
 }
 
 func ReplayC07(rp map[string]any) (bool, string) {
 	rep := lib.NewReport("C07", "replay")
+	verboseRun = rp["verbose"] == true
 	if rp["mode"] == "shape" {
 		srv, set := shapeServer()
 		defer srv.Close()
